@@ -1596,7 +1596,7 @@ SCALE_RULE = (
     "of v2-class / v2-asm / hybrid-class / hybrid-asm; duplicates: three), thorough tier every kind for every template.  States by mode: "
     "C05 intact (root AND parent, and an object that saw a damaged tree asked again once the content is back); C04 damage sets (an object "
     "that saw the intact tree asked again; first state also through the parent); C16 intact + damage sets (value, verdict stream, an object "
-    "reused after the disk changed).  Damage at scale: 1..3 of flip (bits recorded) / truncate / remove at offsets next to multiples of "
+    "reused after the disk changed; thorough: first state also through the parent).  Damage at scale: 1..3 of flip (bits recorded) / truncate / remove at offsets next to multiples of "
     "1 / 4 / 8 MiB and of the piece length (first, second, last; one byte either side), both ends, random ones, truncation to 0; for duplicate "
     "content aimed sets: ONLY the later copy flipped, ONLY the later copy truncated, ONLY the earlier copy flipped (thorough: later copy "
     "removed, both copies damaged differently, a middle copy).  A part through cli.execute.  Replays rebuild the payload from the recorded "
@@ -1850,8 +1850,9 @@ def e2e_scale(ctx, mode, tmp):
                     cl.add("a Checker object reused after the disk changed (damaged -> restored)")
                     reuse_c05(ctx, reuse[kind], inp, [ddesc])
                 ri = impl.get("result", impl.get("error"))
-                # content path = parent directory: the same verdict (C05: every case; C04 / C16: the first state of each case)
-                if mode == "C05" or sn == 0:
+                # content path = parent directory: the same verdict (C05: every case; C04, and C16 in the thorough tier: the first
+                # state of each case)
+                if mode == "C05" or (sn == 0 and (mode == "C04" or thorough)):
                     rp = impl_result(mf, sc.parent)
                     cl.add("content path = parent directory")
                     if rp != ri:
